@@ -504,6 +504,12 @@ Fixpoint indexed {A} (i : N) (l : list A) : list (N * A) :=
 Definition hard_of (st : ostep) : list (N * bool) :=
   match st_op st with OpAppAdd id _ _ _ _ _ hard _ _ => [(id, hard)] | _ => [] end.
 
+(* one key held twice by an application (unallocated request + entry of the allocation list): the state of finding
+   C04-update-after-timeout-duplicates-key (a key still bound as a timed-out placeholder re-submitted as a new ask); the
+   component model identifies asks by key and does not describe it *)
+Definition dup_key_state (s : ostate) : bool :=
+  existsb (fun a => existsb (fun r => negb (oa_allocated r) && memN (oa_key r) (map oa_key (ap_allocs a))) (ap_requests a)) (s_apps s).
+
 (* [acct]: an accounting trigger (Core/Ledger.v known_trigger, Core/Ledger2.v) has happened in this history: the ledgers
    the component model recomputes are corrupted by a recorded defect, its correspondence (691) is not judged any more *)
 Fixpoint c06_steps (i : N) (hards : list (N * bool)) (poison : list (N * N * N)) (acct : bool) (l : list (ostate * ostep)) : list (N * N) :=
@@ -512,7 +518,8 @@ Fixpoint c06_steps (i : N) (hards : list (N * bool)) (poison : list (N * N * N))
   | (pre, st) :: t =>
       let hards' := hard_of st ++ hards in
       let poison' := new_poison pre st ++ poison in
-      let acct' := acct || match known_trigger_ext pre st with Some _ => true | None => false end in
+      let acct' := acct || match known_trigger_ext pre st with Some _ => true | None => false end ||
+                   dup_key_state pre || dup_key_state (st_obs st) in
       map (fun k => (i, k))
           (c06_swap_step st ++ c06_confirm_step pre st ++ c06_state poison' (st_obs st) ++
            c06_timer_step hards' pre st ++ path_check pre st ++ counters_step pre st ++
